@@ -36,7 +36,7 @@ def main():
             continue
         meta = json.load(open(mp))
         pid = meta["property"]
-        root = "seedout2" if name.endswith("-r2") else "seedout"
+        root = "seedout3" if name.endswith("-r3") else ("seedout2" if name.endswith("-r2") else "seedout")
         lp = os.path.join(LOGS, "%s_%s.log" % (root, pid))
         if os.path.exists(lp):
             meta["checks_run"] = parse_log(lp)
